@@ -316,7 +316,8 @@ def execute(case, run):
     oc.trace = res.get("ev_hash", "") or res.get("status", "")
     V = oc.verdicts
     has_cyclic = any(f.get("cyclic") for f in case["forms"])
-    if res.get("status") == "budget" or any(v.get("class") == "budget" for v in res.get("violations", []) or []):
+    if res.get("status") in ("budget", "timeout") or any(v.get("class") == "budget" for v in res.get("violations", []) or []):
+        # (a cyclic object that ends up as the payload of an uncaught condition is also written out by the harness itself)
         if has_cyclic or case.get("corrupt"):
             # inconclusive by the stated assumptions (a corrupted program is another program and may loop)
             oc.probes = {"cyclic_argument_exhausted_budget": 1}
